@@ -566,6 +566,53 @@ def make_reductions(interp):
 # ---- V attribute / item protocol -----------------------------------------------------------------
 
 
+class SortedPos:
+    """the position Series.searchsorted returned (see v_getattr): first row of a sorted frame whose running total reaches x"""
+
+    def __init__(self, col, value, side):
+        self.col, self.value, self.side = col, value, side
+
+
+class SeriesILoc:
+    """Series.iloc: only [SortedPos] on a column of the SAME sorted frame, and only for the column the frame is sorted by:
+    the rows are in ascending order of it and the running total is non-decreasing along them, so the first row whose total
+    reaches x carries the SMALLEST sort value among the rows whose total reaches x (lemma prefix_le); no such row ->
+    position = number of rows -> IndexError"""
+
+    def __init__(self, v):
+        self.v = v
+
+    def pyvc_getitem(self, interp, key):
+        from . import sums
+        from .frames import RowAxis
+        from .values import ExcVal, SymRaise, same_axis
+
+        v = self.v
+        if not isinstance(key, SortedPos):
+            raise Undecided("Series.iloc with a key that is not a searchsorted position")
+        c = key.col
+        ax = v.axes[0] if len(v.axes) == 1 else None
+        if not (isinstance(ax, RowAxis) and len(c.axes) == 1 and same_axis(c.axes[0], ax) and len(ax.doms) == 1 and getattr(ax, "sortkey", None) and len(ax.sortkey) == 1):
+            raise Undecided("iloc[searchsorted position] across different frames")
+        if not z3.eq(z3.simplify(real(v.t)), z3.simplify(real(ax.sortkey[0]))):
+            raise Undecided("iloc[searchsorted position] of a column the frame is not sorted by")
+        x = real(to_term(key.value))
+        reach = (real(c.t) >= x) if key.side == "left" else (real(c.t) > x)
+        _use("prefix_le / prefix_ge / prefix_last_tie")
+        new = RowAxis(ax.root, [z3.And(ax.doms[0], reach)], ax.order)
+        new.sortkey = list(ax.sortkey)
+        sel = V(v.t, (new,), None, v.nan, v.inf)
+        m = sums.reduce_minmax(interp, sel, None, "min")
+        # ghost instantiation: the LAST row of the sorted frame carries the whole total -- if the total reaches x, a row does
+        cm, mn = c.meta[1], m.meta[1]
+        for i in [cm["lastrow"], mn["witness"]] + list(getattr(interp, "ghost_rows", [])):
+            cm["instantiate"](interp.ctx, i)
+            mn["instantiate"](interp.ctx, i)
+        if m.nan is not None and interp.ctx.branch(V(m.nan), "searchsorted-past-the-end"):
+            raise SymRaise(ExcVal("IndexError", ("single positional indexer is out-of-bounds",)))
+        return V(m.t, m.axes, None, None, m.inf, m.meta)
+
+
 def v_getattr(interp, v, name):
     from . import sums
 
@@ -719,6 +766,23 @@ def v_getattr(interp, v, name):
         from . import sums as _s
 
         return lambda **k: (only_kw("cumsum", k), _s.cumsum_sorted(interp, v))[1]
+    if name == "searchsorted":
+        # Series.searchsorted on the running total of a frame sorted by one key (the only non-decreasing column the subset
+        # knows): a POSITION in that frame -- the first row whose running total is >= value ('left') / > value ('right').
+        # Only `other_column.iloc[position]` of the same frame is modelled (below).
+        if not (isinstance(v.meta, tuple) and v.meta and v.meta[0] == "cumsum"):
+            raise Undecided("searchsorted on a column that is not the running total of a sorted frame")
+
+        def searchsorted(value, side="left", **kw):
+            only_kw("Series.searchsorted", kw, sorter=(None,))
+            if side not in ("left", "right"):
+                raise Undecided(f"searchsorted(side={side!r})")
+            _use("Series.searchsorted(x, side) on a non-decreasing column: position of the first row with value >= x ('left') / > x ('right'); the number of rows if there is none")
+            return SortedPos(v, value, side)
+
+        return searchsorted
+    if name == "iloc":
+        return SeriesILoc(v)
     if name == "between":
 
         def between(left, right, inclusive="both"):
